@@ -409,8 +409,9 @@ fn check_history(case: &SinkCase, custom: bool, ops: &[SinkOp], mon: &mut Mon, c
                             bad(mon, format!("sink said Interrupted, caller saw {:?}", e.kind()));
                         }
                     }
-                    (Ok(Err(e)), Some(WriteAnswer::Hard(k, id))) => {
-                        if !is_injected(&e, k, id) || !grew.is_empty() {
+                    (Ok(Err(e)), Some(WriteAnswer::Hard(k, id, payload))) => {
+                        let f = Fired { id, at: 0, hard: Some(k), call: 0, payload };
+                        if !is_fired(&e, &f) || !grew.is_empty() {
                             bad(mon, format!("sink failed with {:?}#{}, caller saw {:?}", k, id, e));
                         }
                     }
@@ -728,14 +729,31 @@ pub fn c07_run(seed: u64, i: u64, mon: &mut Mon, found: &mut Vec<Found>) {
             if round > 0 {
                 let at = rng.usize_below(total + 1);
                 let kind = if rng.chance(1, 3) { WriteFaultKind::Zero } else { WriteFaultKind::Hard(*rng.pick(&KINDS)) };
-                plan.faults.push(WriteFault { at, kind, sticky: rng.coin(), id: 900 + round });
+                plan.faults.push(WriteFault { at, kind, sticky: rng.coin(), id: 900 + round, payload: payload_for(rng.usize_below(8)) });
             }
             run_case(SinkCase { plan, ..base.clone() }, mon, found);
         }
         mon.count("scenarios");
         return;
     }
-    let value = val::gen_value(&mut rng, &mask, depth);
+    let mut value = val::gen_value(&mut rng, &mask, depth);
+    if rng.chance(1, 12) {
+        // a big value: kilobytes of output with multi-byte text at every alignment,
+        // so that whatever buffer sits between printer and sink fills up mid-token
+        let n = rng.urange(12, 60);
+        let big_mask = ValMask { long_tokens: true, ..mask };
+        let pad = rng.urange(0, 7);
+        let items: Vec<V> = (0..n)
+            .map(|k| match rng.below(4) {
+                0 => V::Str(format!("{}{}", "x".repeat((pad + k) % 7), val::gen_string(&mut rng, &big_mask))),
+                1 => V::Sym(val::gen_name(&mut rng, &big_mask)),
+                2 => V::Str("é名λ😀".repeat(rng.urange(5, 40))),
+                _ => val::gen_atom(&mut rng, &mask),
+            })
+            .collect();
+        value = if rng.coin() { V::List(items, None) } else { V::Vector(items) };
+        mon.count("c07.big_value_scenarios");
+    }
     let entry = match entry_pick {
         3..=8 => Entry::ToWriter,
         9..=13 => Entry::ToWriterCustom,
@@ -780,10 +798,10 @@ pub fn c07_run(seed: u64, i: u64, mon: &mut Mon, found: &mut Vec<Found>) {
     // (b) hard error at every offset, (c) zero-accept from every offset on
     let accepts_for_faults = if rng.coin() { vec![] } else { random_accepts };
     for &j in &offsets {
-        let hard = WriteFault { at: j, kind: WriteFaultKind::Hard(KINDS[j % KINDS.len()]), sticky: j % 2 == 1, id: 1000 + j as u64 };
+        let hard = WriteFault { at: j, kind: WriteFaultKind::Hard(KINDS[j % KINDS.len()]), sticky: j % 2 == 1, id: 1000 + j as u64, payload: payload_for(j / 7) };
         run_case(SinkCase { plan: WritePlan { faults: vec![hard], accepts: accepts_for_faults.clone(), ..base_plan.clone() }, ..base.clone() }, mon, found);
         if j < len {
-            let zero = WriteFault { at: j, kind: WriteFaultKind::Zero, sticky: true, id: 5000 + j as u64 };
+            let zero = WriteFault { at: j, kind: WriteFaultKind::Zero, sticky: true, id: 5000 + j as u64, payload: Payload::Custom };
             run_case(SinkCase { plan: WritePlan { faults: vec![zero], accepts: accepts_for_faults.clone(), ..base_plan.clone() }, ..base.clone() }, mon, found);
         }
     }
